@@ -114,7 +114,7 @@ def expected_packets(packets, upto):
 
 
 def check_framing(ctx, rng):
-    streams = framing_streams(rng, ctx.n(25, 400))
+    streams = framing_streams(rng, 25 if ctx.quick else 1600)
     if not ctx.quick:
         streams = [s for i, s in enumerate(streams) if i % ctx.nshards == ctx.shard or i < 4]
 
@@ -329,7 +329,7 @@ def is_prefix(a, b):
 
 def check_robustness(ctx, rng):
     corp = robustness_corpus(ctx, rng)
-    per = 120 if ctx.quick else 500
+    per = 120 if ctx.quick else 1500
     deliveries = []     # (kind, label, bytes, mode)
     for kind, wire in corp:
         deliveries.append((kind, 'valid', wire, 'framed'))
@@ -343,7 +343,7 @@ def check_robustness(ctx, rng):
                 deliveries.append((kind, label.split('@')[0], fx, 'framed'))
             if rng.random() < 0.35:
                 deliveries.append((kind, label.split('@')[0], m, 'as-is'))
-    for _ in range(ctx.n(300, 20000)):
+    for _ in range(ctx.n(300, 400000)):
         L = rng.choice([1, 2, 3, 5, 9, 20, 60])
         t = rng.choice([5, 6, 0x64, 0x64, rng.randrange(256)])
         body = gen.rand_bytes(rng, L)
